@@ -24,7 +24,8 @@ Record wst := mk_wst
 
 Definition empty_round : round := mk_round 0 false [] [] false.
 Definition env_only (x : sim) (r : round) : sim :=
-  set_sock (sock x + r_add r) (eof x || r_eof r) (wscript x ++ r_wr r) (flq x ++ r_fl r) x.
+  set_hw (if r_hw r then hwc x + 1 else hwc x) (ticket x)
+    (set_sock (sock x + r_add r) (eof x || r_eof r) (wscript x ++ r_wr r) (flq x ++ r_fl r) x).
 
 (* poll while woken; [n] counts polls of this round *)
 Fixpoint drive (fuel : nat) (c : cfg) (F : nat) (w : wst) (n : N) : wst * N :=
